@@ -139,6 +139,7 @@ func (n *ManyToOneNode) backward(proc *process.Process) {
 	for backPck := range outWriter.Receive() {
 		n.tracer.Receive(outWriter, backPck)
 	}
+	n.tracer.Drop(outWriter)
 }
 
 func (n *ManyToOneNode) catch(proc *process.Process) {
@@ -147,4 +148,5 @@ func (n *ManyToOneNode) catch(proc *process.Process) {
 	for backPck := range errWriter.Receive() {
 		n.tracer.Receive(errWriter, backPck)
 	}
+	n.tracer.Drop(errWriter)
 }
